@@ -506,6 +506,7 @@ static int gen_insn (Gen *g, const VOp *op, int last)
     } else if (starts (op->name, "loadup")) { a->up = 1; if (starts (op->name, "loadupib")) a->up_interp = 1; ps->has_special_load = 1; }
     else if (starts (op->name, "ldres")) {
       a->res_b = in.s[1]; a->res_c = in.s[2]; a->res_lin = starts (op->name, "ldreslin");
+      if (a->nres < 4) { a->res_bv[a->nres] = in.s[1]; a->res_cv[a->nres] = in.s[2]; a->nres++; }
       ps->has_special_load = 1;
     } else a->plain = 1;
   }
@@ -741,7 +742,8 @@ void ps_single (const VOp *op, int form, ProgSpec *ps)
     a->read = 1;
     if (starts (op->name, "loadoff")) { a->off_vars[a->noff++] = in.s[1]; ps->has_special_load = 1; }
     else if (starts (op->name, "loadup")) { a->up = 1; if (starts (op->name, "loadupib")) a->up_interp = 1; ps->has_special_load = 1; }
-    else if (starts (op->name, "ldres")) { a->res_b = in.s[1]; a->res_c = in.s[2]; a->res_lin = starts (op->name, "ldreslin"); ps->has_special_load = 1; }
+    else if (starts (op->name, "ldres")) { a->res_b = in.s[1]; a->res_c = in.s[2]; a->res_lin = starts (op->name, "ldreslin"); ps->has_special_load = 1;
+      if (a->nres < 4) { a->res_bv[a->nres] = in.s[1]; a->res_cv[a->nres] = in.s[2]; a->nres++; } }
     else a->plain = 1;
   }
   if (op_is_float (op)) ps->has_float = 1;
@@ -943,9 +945,10 @@ void rc_generate (VChoices *c, const ProgSpec *ps, const RunOpts *o, RunCfg *rc)
   /* resampling loads: keep b + c*(n-1) inside 31 bits (the position is a 32-bit int), shrinking n if needed */
   for (i = 0; i < ps->nvars; i++) {
     const PVar *v = &ps->vars[i];
-    if ((v->kind == VK_SRC) && v->res_b >= 0 && !ps->const_n) {
-      int64_t b = (int32_t) (ps->vars[v->res_b].kind == VK_CONST ? ps->vars[v->res_b].cval : rc->pval[v->res_b]);
-      int64_t cc = (int32_t) (ps->vars[v->res_c].kind == VK_CONST ? ps->vars[v->res_c].cval : rc->pval[v->res_c]);
+    int q;
+    for (q = 0; q < v->nres && v->kind == VK_SRC && !ps->const_n; q++) {
+      int64_t b = (int32_t) (ps->vars[v->res_bv[q]].kind == VK_CONST ? ps->vars[v->res_bv[q]].cval : rc->pval[v->res_bv[q]]);
+      int64_t cc = (int32_t) (ps->vars[v->res_cv[q]].kind == VK_CONST ? ps->vars[v->res_cv[q]].cval : rc->pval[v->res_cv[q]]);
       if (cc > 0 && b + cc * (int64_t) rc->n > 0x7fff0000LL) {
         int64_t nmax = (0x7fff0000LL - b) / cc;
         if (nmax < ps->n_min) nmax = ps->n_min;
@@ -1024,8 +1027,8 @@ void ps_entitlement (const ProgSpec *ps, const RunCfg *rc, int v, long *lo, long
       if (pv->up_interp && ((n - 1) & 1)) mx = ((n - 1) >> 1) + 1;
       if (mx + 1 > h) h = mx + 1;
     }
-    if (pv->res_b >= 0) {
-      int64_t b = (int32_t) scalar_value (ps, rc, pv->res_b), cc = (int32_t) scalar_value (ps, rc, pv->res_c);
+    for (k = 0; k < pv->nres; k++) {
+      int64_t b = (int32_t) scalar_value (ps, rc, pv->res_bv[k]), cc = (int32_t) scalar_value (ps, rc, pv->res_cv[k]);
       long mx = (long) ((b + cc * (n - 1)) >> 16) + 1;     /* +1 always granted (bilinear neighbour) */
       if (mx + 1 > h) h = mx + 1;
     }
